@@ -224,6 +224,24 @@ def cases(rng, tier, stats):
         out.append(C.Case("arith-print", [run(prog)], lambda m, i: C.compare_run(m, i, line=True), print_oracle,
                           info={"src": prog, "want": G.bn_digits(plain(v)) + "\n"}))
     stats["programs"] = nprog
+    # the same line number in two files: a module and its importer print different number literals (and computed numbers) from loops
+    # whose statements sit on the same line numbers of their files — what a print statement writes depends on its operand only
+    from props.base import run_req as _rr, cmp_run as _cr
+    nsl = 0
+    pairs = [("\u09e6.\u09eb", "\u09e8.\u09e8\u09ee"), ("\u09e7\u09e6\u09e6", "\u09e7\u09e6\u09e6.\u09eb"), ("-\u09e6", "\u09e6"), ("\u09ef\u09e6\u09e6\u09ed\u09e7\u09ef\u09ef\u09e8\u09eb\u09ea\u09ed\u09ea\u09e6\u09ef\u09ef\u09e8", "\u09ef\u09e6\u09e6\u09ed\u09e7\u09ef\u09ef\u09e8\u09eb\u09ea\u09ed\u09ea\u09e6\u09ef\u09ef\u09e9")]
+    show, name, loop, again, brk, iff, imp = "\u09a6\u09c7\u0996\u09be\u0993", "\u09a8\u09be\u09ae", "\u09b2\u09c1\u09aa", "\u0986\u09ac\u09be\u09b0", "\u09a5\u09be\u09ae\u09be\u0993", "\u09af\u09a6\u09bf", "\u09ae\u09a1\u09bf\u0989\u09b2"
+    def unit(v, lit, first=""):
+        return (first + f"{name} {v} = \u09e6;\n{loop} {{\n {show} {lit};\n _{show} {lit}; {show} \"\";\n {show} _\u09b8\u09cd\u099f\u09cd\u09b0\u09bf\u0982({lit});\n"
+                f" {v} = {v} + \u09e7;\n {iff} {v} >= \u09e8 {{ {brk}; }}\n}} {again};\n")
+    for a, b in pairs:
+        for order in (0, 1):
+            la, lb = (a, b) if order == 0 else (b, a)
+            mod = unit("\u0997", la)
+            main = unit("\u0995", lb, first=f'{imp} \u09ae = "m.pakhi"; ')
+            lines = ["RESET", "FILE " + C.hx("@ROOT@/m.pakhi") + " " + C.hx(mod), _rr(main), _rr(main, rel=1)]
+            out.append(C.Case("same-line-two-files", lines, _cr(line=True), None, info={"module": mod, "main": main}))
+            nsl += 1
+    stats["same_line_two_files"] = nsl
     # one name in two roles (props/collisions.py): shadowed functions, parameters named like globals / built-ins / their own function,
     # bare conditions, indexed and plain writes, re-declarations — every use of a name resolves to its innermost binding
     from props import collisions
@@ -231,3 +249,8 @@ def cases(rng, tier, stats):
     out += nc_
     stats["name_collision_programs"] = len(nc_)
     return out
+
+
+def fix_root(cases_, root):
+    for c in cases_:
+        c.lines = [l if not l.startswith("FILE ") else "FILE " + C.hx(C.unhx(l.split(" ")[1]).replace("@ROOT@", root)) + " " + l.split(" ")[2] for l in c.lines]
